@@ -113,11 +113,14 @@ func badTemplatePkt(dom uint32, id uint16, how int) []byte {
 // each for a SYMBOLIC (observation domain, template id): the solver explores
 // every aliasing pattern between the keys.
 func Check_History() {
-	k := 3
-	if sx.Tier() > 0 {
-		k = 4
+	if sx.Tier() > 0 && sx.Choose("family", 2) == 1 {
+		// thorough: besides depth 3 over the full menu, depth 4 over a reduced menu
+		// (templates A and B, one kind of bad template, data); depth 4 over the full
+		// menu is 0.47 M histories and 18 minutes
+		history(sx.Param("k", 4), nil, true)
+		return
 	}
-	history(sx.Param("k", k), nil)
+	history(sx.Param("k", 3), nil, false)
 }
 
 // Check_HistoryAfterUse: one level deeper for the histories that matter most
@@ -125,10 +128,14 @@ func Check_History() {
 // a key that may or may not be the same - the solver's choice), followed by
 // 2 (quick) / 3 (thorough) free messages.
 func Check_HistoryAfterUse() {
-	history(4+sx.Tier(), []int{1, 3})
+	if sx.Tier() > 0 && sx.Choose("family", 2) == 1 {
+		history(5, []int{1, 3}, true) // thorough: 3 free messages over the reduced menu
+		return
+	}
+	history(4, []int{1, 3}, false)
 }
 
-func history(k int, forced []int) {
+func history(k int, forced []int, reduced bool) {
 	proto := []string{"tcp", "udp"}[sx.Choose("protocol", 2)]
 	var clk collector.VerifClock
 	if proto == "udp" {
@@ -144,7 +151,7 @@ func history(k int, forced []int) {
 		id := sx.U16("templateID")
 		sx.Assume(id >= 256)
 		nkinds := 3
-		if !usedEmpty {
+		if !usedEmpty && !reduced {
 			nkinds = 4 // at most one zero-field template per history (keeps the history count in bounds)
 		}
 		var kind int
@@ -175,12 +182,20 @@ func history(k int, forced []int) {
 			}
 			sx.Reach("zero-field-template")
 		case 1:
-			variant := []int{variantA, variantB, variantC, variantS, variantS4}[sx.Choose("variant", 5)]
+			variants := []int{variantA, variantB, variantC, variantS, variantS4}
+			if reduced {
+				variants = variants[:2]
+			}
+			variant := variants[sx.Choose("variant", len(variants))]
 			_, err := cp.VerifDecodePacket(templatePkt(dom, id, variant), "1.2.3.4:5")
 			sx.Assert(err == nil, "valid-template-refused")
 			m.set(dom, id, variant)
 		case 2:
-			_, err := cp.VerifDecodePacket(badTemplatePkt(dom, id, sx.Choose("bad", 2)), "1.2.3.4:5")
+			nbad := 2
+			if reduced {
+				nbad = 1
+			}
+			_, err := cp.VerifDecodePacket(badTemplatePkt(dom, id, sx.Choose("bad", nbad)), "1.2.3.4:5")
 			sx.Assert(err != nil, "bad-template-accepted")
 			m.remove(dom, id)
 			sx.Reach("bad-template")
